@@ -2,7 +2,6 @@ package c18
 
 import (
 	"fmt"
-	"os"
 	"reflect"
 )
 
@@ -54,16 +53,8 @@ func statusAfterInfo(ops []Op) bool {
 // model: blocked requests never reach the handler and carry the interruption's status; blocked
 // responses carry no handler byte; otherwise the exchange equals the one with the bare handler.
 // Returns the number of oracle evaluations.
-func oracle(c *Case, s *server, fail func(key, what string, c any), known map[string]bool, skippedNew map[string]int) int {
+func oracle(c *Case, s *server, fail func(key, what string, c any), known map[string]bool) int {
 	o := c.Obs
-	reportNew := os.Getenv("VERIF_C18_REPORT_NEW") == "1"
-	newDev := func(key, what string) {
-		if reportNew {
-			fail(key, what, c)
-		} else {
-			skippedNew[key]++
-		}
-	}
 	if o.ClientErr != "" {
 		fail("c18-client-error", "the HTTP client could not complete the exchange: "+o.ClientErr, c)
 		return 1
@@ -100,11 +91,8 @@ func oracle(c *Case, s *server, fail func(key, what string, c any), known map[st
 	case o.Intr != nil:
 		// response-phase interruption: none of the handler's body bytes
 		if o.BodyHex != "" || bodyEvents > 0 || o.Refused > 0 {
-			if lateImplicitLeak(c) {
-				newDev("c18-implicit-header-phase3-leak", "phase-3 interruption raised inside Write's implicit WriteHeader: the same Write still hands the handler's bytes to the downstream writer")
-			} else {
-				fail("c18-response-block-leak", "a response interrupted in a response phase delivered handler bytes", c)
-			}
+			// includes bytes the middleware handed to the writer that the writer refused (F52, repaired)
+			fail("c18-response-block-leak", "a response interrupted in a response phase handed handler bytes to the writer", c)
 		}
 		return 1
 	}
@@ -150,7 +138,8 @@ func oracle(c *Case, s *server, fail func(key, what string, c any), known map[st
 			known["c18-informational-status"] = true
 			fail("c18-informational-status", what, c)
 		case lateHeaders(c.Ops):
-			newDev("c18-late-header-visible", "a header set after WriteHeader/Write/Flush reaches the client only behind the middleware: "+what)
+			known["c18-late-header-visible"] = true
+			fail("c18-late-header-visible", "a header set after WriteHeader/Write/Flush reaches the client only behind the middleware: "+what, c)
 		default:
 			fail("c18-passthrough", what, c)
 		}
@@ -174,18 +163,6 @@ func lateRead(c *Case) bool {
 		}
 		if committed && (op.Op == "rd" || op.Op == "rdall") {
 			return true
-		}
-	}
-	return false
-}
-
-// lateImplicitLeak: the handler's first status-committing operation is a Write/ReadFrom (no
-// explicit WriteHeader, no Flush before) - the shape in which rwInterceptor.Write runs the
-// response-header phase itself and then continues with the write.
-func lateImplicitLeak(c *Case) bool {
-	for _, op := range c.Ops {
-		if commitsOp(op) {
-			return op.Op == "w" || op.Op == "rf"
 		}
 	}
 	return false
